@@ -9,6 +9,15 @@ namespace SV.Facts
 theorem single_sections : ∀ m ∈ singleCriticalSection, m.2 = true := by decide
 theorem single_sections_present : 20 ≤ singleCriticalSection.length := by decide
 
+/-- every operation of the size-bounded LRU that the cache wrapper reaches is ONE critical section of the LRU's own mutex: a
+    concurrent caller sees the two structures and the byte counter only between operations (what the sequential refinement
+    theorems of C15 are then about) -/
+theorem sized_lru_sections :
+    ∀ n ∈ ["lrucache/capacity:capacityLRU.AddSized", "lrucache/capacity:capacityLRU.AddSizedIfMissing",
+           "lrucache/capacity:capacityLRU.AddSizedAndReturnEvicted", "lrucache/capacity:capacityLRU.Get",
+           "lrucache/capacity:capacityLRU.Remove", "lrucache/capacity:capacityLRU.Keys"],
+      (n, true) ∈ singleCriticalSection := by decide
+
 /-- Kahn-style acyclicity test: repeatedly delete the edges whose source has no incoming edge -/
 def prune (edges : List (Nat × Nat)) : List (Nat × Nat) :=
   edges.filter (fun e => edges.any (fun f => f.2 == e.1))
